@@ -125,6 +125,17 @@ class StandardRequestHandler(ControlRequestHandler):
             skiplisted = functools.reduce(operator.__or__, (f(setup) for f in self._skiplist), Const(0))
             m.d.comb += interface.claim.eq(~skiplisted)
 
+            # A new SETUP packet aborts whatever request we were handling [USB 2.0: 5.5.5]. Remember that
+            # one arrived, so the IDLE state dispatches it even if it arrived while another state was active.
+            new_setup = Signal()
+            with m.If(setup.received):
+                m.d.usb += new_setup.eq(1)
+
+            def abort_on_new_setup():
+                """ Abandons the request in progress when a new SETUP packet arrives; must come last in a state. """
+                with m.If(setup.received):
+                    m.next = 'IDLE'
+
             with m.FSM(domain="usb"):
 
                 # IDLE -- not handling any active request
@@ -139,7 +150,8 @@ class StandardRequestHandler(ControlRequestHandler):
                     ]
 
                     # If we've received a new setup packet, handle it.
-                    with m.If(setup.received):
+                    with m.If(setup.received | new_setup):
+                        m.d.usb += new_setup.eq(0)
 
                         with m.If(~skiplisted):
 
@@ -168,6 +180,7 @@ class StandardRequestHandler(ControlRequestHandler):
                     # TODO: handle reporting endpoint stall status
                     # TODO: copy the remote wakeup and bus-powered attributes from bmAttributes of the relevant descriptor?
                     self.handle_simple_data_request(m, transmitter, 0, length=2)
+                    abort_on_new_setup()
 
                 with m.State('CLEAR_FEATURE'):
                     # Provide an response to the STATUS stage.
@@ -194,15 +207,19 @@ class StandardRequestHandler(ControlRequestHandler):
                         # ... and then return to idle.
                         m.next = 'IDLE'
 
+                    abort_on_new_setup()
+
                 # SET_ADDRESS -- The host is trying to assign us an address.
                 with m.State('SET_ADDRESS'):
                     self.handle_register_write_request(m, interface.new_address, interface.address_changed)
+                    abort_on_new_setup()
 
 
                 # SET_CONFIGURATION -- The host is trying to select an active configuration.
                 with m.State('SET_CONFIGURATION'):
                     # TODO: stall if we don't have a relevant configuration
                     self.handle_register_write_request(m, interface.new_config, interface.config_changed)
+                    abort_on_new_setup()
 
 
                 # GET_DESCRIPTOR -- The host is asking for a USB descriptor -- for us to "self describe".
@@ -251,9 +268,14 @@ class StandardRequestHandler(ControlRequestHandler):
                         m.d.usb += expecting_ack.eq(0)
                         m.next = 'IDLE'
 
+                    with m.If(setup.received):
+                        m.d.usb += expecting_ack.eq(0)
+                    abort_on_new_setup()
+
                 # GET_CONFIGURATION -- The host is asking for the active configuration number.
                 with m.State('GET_CONFIGURATION'):
                     self.handle_simple_data_request(m, transmitter, interface.active_config)
+                    abort_on_new_setup()
 
 
                 # UNHANDLED -- we've received a request we're not prepared to handle
@@ -264,5 +286,7 @@ class StandardRequestHandler(ControlRequestHandler):
                     with m.If(interface.data_requested | interface.status_requested):
                         m.d.comb += handshake_generator.stall.eq(1)
                         m.next = 'IDLE'
+
+                    abort_on_new_setup()
 
         return m
